@@ -21,6 +21,9 @@ type Ctx struct {
 	Tier string
 	cur  string // current rule id
 	wp   *whole // lazily built whole-program facts (call graph etc.)
+
+	silent    bool // engines evaluate without recording (wrapper summaries)
+	wrapCache map[string][]wrapper
 }
 
 // Prop is one property's rule table.
